@@ -32,6 +32,7 @@ SHAPES = [
     ([2, 0, 2], [-1, -1, 0]),    # self reference 2 -> 2, 0 -> 2, 1 -> 0, 2 -M2M-> 0
     ([0, 2, 1], [2, -1, 0]),     # self reference 0 -> 0, both directions of M2M across apps
     ([-1, 1, 1], [1, 0, -1]),    # self reference 1 -> 1, M2M inside one app both ways
+    ([1, -1, 0], [1, 2, 0]),     # two relations of one holder to the same target (0 -> 1 twice, 2 -> 0 twice)
 ]
 
 
@@ -74,12 +75,20 @@ def _build(l0, l1, n0, n1, n2, shape):
     return proj, ref
 
 
+def _app_by_id(proj, app_id):
+    """Exact lookup by current app id (ProjectSignature.get_app_sig also matches legacy labels)."""
+    for a in proj.app_sigs:
+        if a.app_id == app_id:
+            return a
+    return None
+
+
 def _consistent(proj, ref):
     """Every live relation names its target identity under its current name and resolves."""
     for (holder, fname), target in ref['rel'].items():
         if not ref['alive'][holder]:
             continue
-        app_sig = proj.get_app_sig(ref['label'][ref['owner'][holder]])
+        app_sig = _app_by_id(proj, ref['label'][ref['owner'][holder]])
         if app_sig is None:
             return False
         model_sig = app_sig.get_model_sig(ref['name'][holder])
@@ -94,7 +103,7 @@ def _consistent(proj, ref):
         if field_sig.related_model != expect:
             return False
         tl, tn = field_sig.related_model.split('.', 1)
-        ta = proj.get_app_sig(tl)
+        ta = _app_by_id(proj, tl)
         if ta is None or ta.get_model_sig(tn) is None:
             return False
     # and nothing else in the signature carries a relation we do not know about
@@ -227,6 +236,56 @@ def h_seq2(shape: int, k1: int, k2: int, l0: int, l1: int, n0: int, n1: int, n2:
     if r != 'ok':
         return hx.verdict(True, False)
     return hx.verdict(_consistent(proj, ref), True)
+
+
+def h_rename_label(shape: int, x: int, y: int, l0: int, l1: int, n0: int, n1: int, n2: int,
+                   legacy: int, subset: int) -> bool:
+    """RenameAppLabel with its optional arguments: legacy_app_label equal to the old label, absent or
+    a different string; model_names absent, all models of the app, or only the first one (the
+    others stay under the old label, as when one stored app id held two apps).
+
+    pre: 0 <= shape < len(SHAPES)
+    pre: _names_ok(l0, l1, n0, n1, n2)
+    pre: 0 <= x <= 1 and 0 <= y <= 2 and 0 <= legacy <= 2 and 0 <= subset <= 2
+    pre: hx.in_part(shape, x, subset)
+    pre: not hx.excluded(shape, x, y, l0, l1, n0, n1, n2, legacy, subset)
+    post: _
+    """
+    proj, ref = _build(l0, l1, n0, n1, n2, shape)
+    old = ref['label'][x]
+    new = LABELS[y]
+    if new in ref['label']:
+        return hx.verdict(True, False)
+    members = [i for i in range(3) if ref['owner'][i] == x]
+    if subset == 0:
+        model_names, moved = None, members
+    elif subset == 1:
+        model_names, moved = [ref['name'][i] for i in members], members
+    else:
+        if len(members) < 2:
+            return hx.verdict(True, False)
+        moved = members[:1]
+        model_names = [ref['name'][moved[0]]]
+    leg = hx.pick([old, None, 'legacy'], legacy)
+    try:
+        RenameAppLabel(old, new, legacy_app_label=leg, model_names=model_names).run_simulation(
+            app_label=old, project_sig=proj, database_state=None, database='default')
+    except SimulationFailure:
+        return hx.verdict(False, True)
+    ref['label'].append(new)
+    for i in moved:
+        ref['owner'][i] = 2
+    ok = _consistent(proj, ref)
+    new_app = _app_by_id(proj, new)
+    ok = ok and new_app is not None and new_app.legacy_app_label == (leg or new)   # AppSignature defaults it to the app id
+    ok = ok and sorted(ms.model_name for ms in new_app.model_sigs) == sorted(ref['name'][i] for i in moved)
+    old_app = _app_by_id(proj, old)
+    if len(moved) == len(members):
+        ok = ok and old_app is None
+    else:
+        ok = ok and old_app is not None and \
+            sorted(ms.model_name for ms in old_app.model_sigs) == sorted(ref['name'][i] for i in members if i not in moved)
+    return hx.verdict(ok, True)
 
 
 def h_free_label(old: str, new: str, mname: str) -> bool:
